@@ -157,10 +157,18 @@ func loadKnown(path string) *knownFile {
 		if !strings.HasPrefix(line, "known:") {
 			continue
 		}
-		f := strings.Fields(line)
+		// known: property=<id> key=<key or "quoted key"> <description>
 		var prop, key string
 		rest := []string{}
-		for _, x := range f[1:] {
+		body := strings.TrimSpace(strings.TrimPrefix(line, "known:"))
+		if i := strings.Index(body, "key=\""); i >= 0 {
+			j := strings.Index(body[i+5:], "\"")
+			if j >= 0 {
+				key = body[i+5 : i+5+j]
+				body = body[:i] + body[i+5+j+1:]
+			}
+		}
+		for _, x := range strings.Fields(body) {
 			if strings.HasPrefix(x, "property=") && prop == "" {
 				prop = strings.TrimPrefix(x, "property=")
 			} else if strings.HasPrefix(x, "key=") && key == "" {
